@@ -56,6 +56,12 @@ pub(super) fn create_transport_costs(
         .map(|(profile, timestamp, matrix)| {
             let (durations, distances) = if let Some(error_codes) = &matrix.error_codes {
                 let capacity = matrix.distances.len();
+                if error_codes.len() != capacity {
+                    return Err(GenericError::from(format!(
+                        "errorCodes size ({}) does not match matrix size ({capacity})",
+                        error_codes.len()
+                    )));
+                }
 
                 let mut durations: Vec<Duration> = Vec::with_capacity(capacity);
                 let mut distances: Vec<Distance> = Vec::with_capacity(capacity);
